@@ -3,7 +3,24 @@ import H3.Model.DynSys
 import H3.Spec.Dyn
 /-! Driver engine `dyn` (C20): a case line is a whole history
     `dyn <capacity> <blocked-limit> <op>…`; output `<model trace> ## <oracle's expectation>`.
-    Per op three tokens: status (with `!cap`/`!cnt`/`!evi` monitor marks), detail, site tags. -/
+    Per op three tokens: status (with `!cap`/`!cnt`/`!evi` monitor marks), detail, state marks
+    (`~20c`: the section to be decoded was encoded under another capacity than the decoder's; `~20d`:
+    the encoder has evicted an entry the decoder has not received; the harness evaluates the same
+    predicates on the real state, the projection renders them the same way).
+
+    **Site tags of the recorded defects go on the status token of the op whose RESULT the defect
+    makes wrong, and nowhere else** (a known finding waives a specification mismatch only at an op
+    that carries its tag — `tools/props/c20.py` `finding_applies`):
+    * `#D-20c` on `deliverBlock sid` when the oldest undecoded section of `sid` was encoded with a
+      `max_size` other than the decoder's present one (the Required Insert Count is reconstructed
+      with the wrong modulus);
+    * `#D-20d` on `deliverBlock sid` when the encoder has evicted an entry the decoder has not
+      received AND the section's Required Insert Count lies beyond the window the reconstruction
+      covers (`required > inserted + max_size / 32`, `C20_prefix_roundtrip`) — without the
+      eviction of unacknowledged insertions no section can be that far ahead;
+    * consequences: once a tagged `deliverBlock` has left the stream's queue of the model and of
+      the oracle out of step (one of them took the section, the other did not), every later
+      `deliverBlock` of THAT stream carries the same tag. -/
 namespace H3.Drv.C20
 open H3.Drv H3.Dyn
 open H3.Spec.Dyn (STable)
@@ -118,8 +135,23 @@ def monitor (s : Sys) : String :=
   (if s.streams.any fun (_, st) => ((st.done ++ st.todo).drop st.npop).any fun b => b.refs.any (· ≤ s.enc.vas.dropped)
    then "!evi" else "")
 
+/-- state mark `~20d` -/
 def tags (s : Sys) : String :=
-  if s.enc.vas.dropped > s.dec.vas.inserted then "#D-20d" else ""
+  if s.enc.vas.dropped > s.dec.vas.inserted then "~20d" else ""
+
+/-- state mark `~20c` for `deliverBlock sid` in state `s` -/
+def mark20c (s : Sys) (sid : Nat) : String :=
+  if (s.stream sid).cancelled then "" else
+  if (s.stream sid).todo.head?.any (fun b => b.encMax ≠ s.dec.maxSize) then "~20c" else ""
+
+/-- site tags for `deliverBlock sid` in state `s` (see the head of the file) -/
+def siteTags (s : Sys) (sid : Nat) : String :=
+  if (s.stream sid).cancelled then "" else
+  match (s.stream sid).todo.head? with
+  | none => ""
+  | some b =>
+    (if b.encMax ≠ s.dec.maxSize then "#D-20c" else "") ++
+    (if s.enc.vas.dropped > s.dec.vas.inserted && b.required > s.dec.vas.inserted + s.dec.maxSize / 32 then "#D-20d" else "")
 
 def dash (s : String) : String := if s == "" then "-" else s
 
@@ -136,6 +168,8 @@ structure Oracle where
   delivered : Nat := 0
   todo : List (Nat × List SBlock) := []
   cancelled : List Nat := []
+  /-- streams on which a tagged `deliverBlock` left the model's and the oracle's queue out of step, with the tags -/
+  desync : List (Nat × String) := []
 
 def Oracle.replayD (o : Oracle) (cap : Nat) : Option STable :=
   ({ cap := cap } : STable).run (o.emitted.take o.delivered)
@@ -178,10 +212,10 @@ def runOps (cap : Nat) : Sys → Oracle → List Event → Acc → Acc
     | .deliverEnc _, .err e => stop s!"X:err {wrapErr "DynamicTable" e}" "X:ok"
     | .deliverEnc _, .panic _ => stop "X:panic" "X:ok"
     | .deliverBlock sid, .err e =>
-      let tg := if (s.stream sid).todo.head?.any (fun b => b.encMax ≠ s.dec.maxSize) then "#D-20c" else ""
+      let tg := siteTags s sid ++ ((aget o.desync sid).getD "")
       stop s!"B:err{tg} {wrapErr "DynamicTable" e}" (expectB sid).1
     | .deliverBlock sid, .panic _ =>
-      let tg := if (s.stream sid).todo.head?.any (fun b => b.encMax ≠ s.dec.maxSize) then "#D-20c" else ""
+      let tg := siteTags s sid ++ ((aget o.desync sid).getD "")
       stop s!"B:panic{tg}" (expectB sid).1
     | .deliverAck _, .err e => stop s!"A:err {wrapErr "Insertion" e}" "A:ok"
     | .deliverAck _, .panic _ => stop "A:panic" "A:ok"
@@ -214,16 +248,20 @@ def runOps (cap : Nat) : Sys → Oracle → List Event → Acc → Acc
             spec := acc.spec ++ ["X:ok", "*", "*"] }
       | .deliverBlock sid, out =>
         let (es, ed) := expectB sid
-        let tgc := if (s.stream sid).cancelled then "" else
-          if (s.stream sid).todo.head?.any (fun b => b.encMax ≠ s.dec.maxSize) then "#D-20c" else ""
-        let (ms, md) := match out with
-          | .blockOk fs => (s!"B:ok{m}", showFields fs)
-          | .blocked r => (s!"B:blocked{m}", s!"r={r}")
-          | _ => (s!"B:skip{m}", "-")
+        let site := siteTags s sid
+        let cons := (aget o.desync sid).getD ""
+        let (mk, md) := match out with
+          | .blockOk fs => ("B:ok", showFields fs)
+          | .blocked r => ("B:blocked", s!"r={r}")
+          | _ => ("B:skip", "-")
         -- the oracle advances its own queue when it expects a successful decode
         let o1 := if es == "B:ok" then { o with todo := aset o.todo sid ((aget o.todo sid).getD []).tail } else o
-        runOps cap s1 o1 rest
-          { model := acc.model ++ [ms, md, dash (tgc ++ tg)], spec := acc.spec ++ [es, ed, "*"] }
+        -- one of the two took the section and the other did not, at an op the recorded defects make wrong:
+        -- from now on the two queues of this stream are out of step
+        let o2 := if site != "" && cons == "" && ((mk == "B:ok") != (es == "B:ok")) then
+            { o1 with desync := aset o1.desync sid site } else o1
+        runOps cap s1 o2 rest
+          { model := acc.model ++ [s!"{mk}{m}{site}{cons}", md, dash (mark20c s sid ++ tg)], spec := acc.spec ++ [es, ed, "*"] }
       | .deliverAck _, .ackRecv n =>
         runOps cap s1 o rest
           { model := acc.model ++ [s!"A:ok{m}", s!"n={n};left=0", dash tg], spec := acc.spec ++ ["A:ok", "*", "*"] }
